@@ -179,3 +179,5 @@ Definition enc_lin (l : lin) : list Z := Z.of_nat (length l) :: flat_map (fun t 
 (* self.G.edges(data=True) with the data dict restricted to the flow attribute: None = the edge has no such attribute *)
 Definition py_edges_data (es : list (N * N)) (flows : list (N * N * Q)) : list (N * N * option Q) :=
   map (fun e => (fst e, snd e, py_dict_find edge_eqb flows e)) es.
+Definition enc_obj (o : option (lexp * bool)) : list Z :=
+  match o with None => [0%Z] | Some (e, mx) => (if mx then 2%Z else 1%Z) :: enc_Q (lconst e) ++ enc_lin (lterms e) end.
